@@ -22,8 +22,12 @@ Inductive kind := Plain | Fixed | Varying.
    TTrkMA trivial but for a user-provided MOVE assignment operator (and an ADL swap):
           trivially copy-assignable, not trivially move-assignable;
    TTrkCA trivial but for a user-provided COPY assignment operator: trivially
-          move-assignable (and trivially swappable), not trivially copy-assignable *)
-Inductive ty := TBlob | TUInt | TSInt | TU8 | TS8 | TByte | TTrk | TTrkC | TTrkMA | TTrkCA.
+          move-assignable (and trivially swappable), not trivially copy-assignable;
+   TFlt   float / double (psz 4 / 8): a fundamental type that is NOT integral - == and < are
+          those of IEEE-754 values (+0 == -0 although the bytes differ), so it takes none of
+          the memcmp fast paths.  NaN bit patterns are outside the modelled domain
+          (Proxy.fkey; C13 itself demands a reflexive ==) *)
+Inductive ty := TBlob | TUInt | TSInt | TU8 | TS8 | TByte | TTrk | TTrkC | TTrkMA | TTrkCA | TFlt.
 
 Record param := { pk : kind; psz : Z; pal : Z; pty : ty }.
 
